@@ -14,7 +14,7 @@ ID = "C03"
 LEVEL = "exploration"
 RULE = ("each forked case registers extractors (healthy or raising) on a random subset of the classes occurring in the MROs of "
         "the exception pool, then runs a ProgGen program (random part) or a systematic chain (matrix part: every exception class "
-        "x nesting depth 1..5 x action style, innermost raises and crosses all enclosing actions). Oracle over the healthy "
+        "x nesting depth 1..5 x action style, innermost raises and crosses all enclosing actions); further registrations / replacements are made between the top-level parts of a program, so later failures must see them. Oracle over the healthy "
         "destination's tape: per action exactly one 'started' and one end message; failed iff an exception escaped the body; "
         "exception=module.Class, reason=str(exc) when str works; extractor fields = those of the nearest registered class in the MRO "
         "({} plus exactly one eliot:traceback when it raises); start fields only on start, success fields only on succeeded; repeated "
@@ -81,6 +81,9 @@ def run_case(spec):
             calls["n"] += 1
             if kind == "raise":
                 calls["raised"] += 1
+                if len(name) % 3 == 0:
+                    # fail with a class that other (possibly failing) extractors are registered for: cycles must not recurse
+                    raise excs.make(["ValueError", "KeyError", "UserError", "RuntimeError", "OSError"][len(name) % 5], "extractor for %s failed" % name)
                 raise ExtractorBoom("extractor for %s failed" % name)
             return {"ext_" + name: [name, len(type(e).__mro__)], "ext_common": name}
         return extractor
@@ -118,10 +121,22 @@ def run_case(spec):
     add_destinations(rec)
     it = Interp(tape=tape)
     it.extractors = expect_fields
-    recursive = any(k == "raise" for n, k in regs.items() if n in ("BaseException", "Exception"))
-    mech = "extractor-recursion" if recursive else None
+    mech = None
+    late = []
     try:
-        forest = it.run(prog)
+        # extractors may be registered (or replaced) at any time: between top-level parts of the program further
+        # registrations are made, also for classes whose subclasses have already failed once (multi-step history)
+        for node in prog:
+            if regs is not None and rng.random() < 0.35:
+                name = rng.choice(REG_CLASSES)
+                kind = "raise" if (rng.random() < 0.25 and (allow_recursive or name not in ("BaseException", "Exception"))) else "ok"
+                tag = "%s#%d" % (name, len(late) + 1)
+                regs[name] = kind
+                late.append((name, kind))
+                register_exception_extractor(CLASSMAP[name], make_extractor(tag, kind))
+                registry[CLASSMAP[name]] = (tag, kind)
+            it.exec_children([node], None, None, top=True)
+        forest = it.forest
     finally:
         remove_destination(rec)
     problems = [v["msg"] for v in it.violations if "current_action" not in v["msg"]]
@@ -146,7 +161,7 @@ def run_case(spec):
                 starts.setdefault(key, []).append(m)
             else:
                 ends.setdefault(key, []).append(m)
-        elif m.get("message_type") == "eliot:traceback" and m.get("exception") == excs.qualname(ExtractorBoom):
+        elif m.get("message_type") == "eliot:traceback" and "extractor for " in str(m.get("reason")) and " failed" in str(m.get("reason")):
             tb_extractor += 1
     seen_nids = set()
     for key, ss in starts.items():
@@ -202,6 +217,7 @@ def run_case(spec):
     c["extractor_calls"] = calls["n"]
     c["extractor_raises"] = calls["raised"]
     c["repeated_finish_calls"] = it.counters.get("extra_finish", 0)
+    c["late_registrations"] = len(late)
     c["exception_identity_checks"] = len(gt)
     for cls, depth, kind in lookups:
         res["sets"]["lookup_depths"].append("%s@%d:%s" % (cls, depth, kind))
